@@ -1,6 +1,6 @@
 (* C02 -- no request, however malformed, crashes the service or disturbs other requests.
    Only property theorems here, each closed by `exact <lemma>`; proofs are in Proofs*.v, the model in Defs.v. *)
-From CppcmsV Require Import Base.Tac Base.CSem C02.Defs C02.Proofs C02.Proofs2 C02.Proofs3 C02.Link gen.Gen_c02proto.
+From CppcmsV Require Import Base.Tac Base.CSem C02.Defs C02.Proofs C02.Proofs2 C02.Proofs3 C02.Proofs4 C02.Link gen.Gen_c02proto.
 Local Open Scope Z_scope.
 
 (* 1. declared length arithmetic: atoll is a saturating signed 64-bit value; a negative declared length is rejected
@@ -128,3 +128,50 @@ Print Assumptions token_char_is_source.
 Theorem to_lower_is_source : forall b, (b < 256)%N -> Z.to_N (wrapu 8 (g_c02_lower (wraps 8 (Z.of_N b)))) = to_lower b.
 Proof. exact link_ascii_to_lower. Qed.
 Print Assumptions to_lower_is_source.
+
+(* 8. HTTP header limit: a request whose header block is accepted took at most 2 x 16384 bytes from the connection (the
+      16384 limit is tested after a read, so the block may extend into one further read of at most 16384 bytes);
+      the general form bounds the consumption from any reader state by `potential` *)
+Theorem http_header_bytes_bounded : forall s i r rest i1, (avail i <= read_cap)%nat ->
+  hdr_loop s parser0 hreq0 (Z.of_nat (avail i)) i = HDone r rest i1 ->
+  Z.of_nat (length s) - Z.of_nat (length rest) <= 32768.
+Proof. exact hdr_loop_at_most_two_reads. Qed.
+Print Assumptions http_header_bytes_bounded.
+Theorem http_header_bytes_bounded_general : forall s p r total i r1 rest i1,
+  hdr_loop s p r total i = HDone r1 rest i1 ->
+  Z.of_nat (length s) - Z.of_nat (length rest) <= potential total (avail i).
+Proof. exact hdr_loop_bound. Qed.
+Print Assumptions http_header_bytes_bounded_general.
+
+(* 9. connection-level form of theorem group 1 for HTTP: a negative / oversized declared length for a mounted
+      application produces exactly [400] / [413] and no handler call *)
+Theorem http_negative_length_connection : forall f s i r rest i1 script a,
+  hdr_loop s parser0 hreq0 (Z.of_nat (avail i)) i = HDone r rest i1 ->
+  process_request r = PScript script -> mounted script = Some a -> h_cl r < 0 ->
+  exists cnt, http_conn (S f) s i = ([IStatus 400], cnt) /\ handled cnt = 0 /\ c_err cnt <= 1.
+Proof. exact http_conn_bad_length. Qed.
+Print Assumptions http_negative_length_connection.
+Theorem http_oversized_length_connection : forall f s i r rest i1 script a,
+  hdr_loop s parser0 hreq0 (Z.of_nat (avail i)) i = HDone r rest i1 ->
+  process_request r = PScript script -> mounted script = Some a ->
+  h_cl r > (if is_multipart (h_ct r) then mp_limit else cl_limit) ->
+  exists cnt, http_conn (S f) s i = ([IStatus 413], cnt) /\ handled cnt = 0 /\ c_err cnt <= 1.
+Proof. exact http_conn_oversized. Qed.
+Print Assumptions http_oversized_length_connection.
+Example http_connection_nonvacuous :
+  (* POST /up HTTP/1.0, Content-Length: -1 *)
+  fst (http_run [[80;79;83;84;32;47;117;112;32;72;84;84;80;47;49;46;48;13;10;67;111;110;116;101;110;116;45;76;101;110;103;116;104;58;32;45;49;13;10;13;10]%N]) = [IStatus 400].
+Proof. vm_compute. reflexivity. Qed.
+
+(* 10. whole-connection index safety for the other two readers: the HTTP reader has no out-of-bounds path for any stream
+       and segmentation; a SCGI connection performs an unsafe read only if the last byte of its header block (index
+       scgi_block_end = position of ':' + declared length) is not NUL - exactly the class of finding 1 *)
+Theorem http_connection_in_bounds : forall fuel s i, ~ In IUnsafe (fst (http_conn fuel s i)).
+Proof. exact http_conn_no_unsafe. Qed.
+Print Assumptions http_connection_in_bounds.
+Theorem scgi_connection_unsafe_only_if_unterminated : forall s,
+  In IUnsafe (fst (scgi_run s)) -> rd s (scgi_block_end s) <> Some 0%N.
+Proof. exact scgi_run_unsafe_only_if_unterminated. Qed.
+Print Assumptions scgi_connection_unsafe_only_if_unterminated.
+Example scgi_connection_nonvacuous : In IUnsafe (fst (scgi_run scgi_witness)) /\ rd scgi_witness (scgi_block_end scgi_witness) = Some 65%N.
+Proof. vm_compute. split; [left; reflexivity|reflexivity]. Qed.
